@@ -395,3 +395,5 @@ def run(ctx):
     # a spurious error at the very end of a catching iteration is an error at the wrong position too
     from . import c14
     c14.rule_sb(ctx)
+    # ... and so is an upstream error that a stage takes for its own signal
+    c14.rule_t6(ctx)
